@@ -251,9 +251,14 @@ func (c *Ctx) frameObligations(fr *Frame, con *Contract, r retPoint, rn string, 
 		ref    *Term
 	}
 	var allows []allow
+	var rawAllowed []string
 	for _, m := range con.Modifies {
 		if m == "*" {
 			return
+		}
+		if isRawPrefix(m) {
+			rawAllowed = append(rawAllowed, m)
+			continue
 		}
 		expr := strings.TrimSuffix(strings.TrimSuffix(m, ".*"), "[*]")
 		e, err := ParseSpec(expr)
@@ -301,6 +306,9 @@ func (c *Ctx) frameObligations(fr *Frame, con *Contract, r retPoint, rn string, 
 		fin := r.st.heapGet(k, srt)
 		ini := fr.Entry.heapGet(k, srt)
 		if fin == ini || srt.Idx != SInt {
+			continue
+		}
+		if _, hit := matchPrefix(rawAllowed, k); hit {
 			continue
 		}
 		q := Fresh("frame!r", SInt)
